@@ -92,6 +92,36 @@ def run(ctx):
         ctx.ob('C24-SIBLING.bulk-delete-consults-row-set-field', dele, 'translator.' + f, ok,
                '' if ok else 'construct_sql_ast shapes the selected rows with translator.%s but construct_delete_sql_ast never puts it into its statement (nor rejects '
                'such queries): the bulk delete removes rows the query does not select' % f, expected='use translator.%s or reject such queries' % f)
+    # which rows a LIMITED query selects depends on its ORDER BY: for both ways of being limited (a limit; an offset without limit) every
+    # path of the delete constructor that emits the LIMIT section also emits ORDER BY translator.order
+    from ..typestate import eval_test
+    order_nodes = [x for x in gd.nodes if x.ast is not None and x.kind == 'stmt' and 'ORDER_BY' in norm(x.ast, limit=2000) and dele.recv + '.order' in norm(x.ast, limit=2000)]
+    limit_nodes = [x for x in gd.nodes if x.ast is not None and x.kind == 'stmt' and "'LIMIT'" in norm(x.ast, limit=2000)]
+    for scen, facts in (('limit without offset', {'limit_none': False, 'offset': False}), ('offset without limit', {'limit_none': True, 'offset': True})):
+        def atom(text, node, facts=facts):
+            t = text.replace(' ', '')
+            R = dele.recv
+            if t in (R + '.limitisNone', 'limitisNone'): return facts['limit_none']
+            if t in (R + '.limitisnotNone', 'limitisnotNone'): return not facts['limit_none']
+            if t == R + '.offset': return facts['offset']
+            if t == 'limited': return True
+            if t == R + '.order': return True
+            if t in (R + '.groupby_monads', R + '.having_conditions', R + '.conditions'): return None
+            if t == "%s.dialect=='MySQL'" % R: return False
+            return None
+        def edge_ok(x, y, lab):
+            n_ = gd.nodes[x]
+            if n_.kind != 'test' or lab not in ('T', 'F'): return True
+            v = eval_test(n_.ast, atom)
+            return v is None or v == (lab == 'T')
+        r = gd.reach([gd.entry], avoid=order_nodes, edge_ok=edge_ok)
+        bad = [x for x in limit_nodes if x.id in r]
+        ok = bool(order_nodes) and bool(limit_nodes) and not bad
+        ob = ctx.ob('C24-SIBLING.limited-bulk-delete-keeps-the-order', dele, limit_nodes[0].ast if limit_nodes else dele.node, ok,
+                    '' if ok else 'for a source limited by %s the LIMIT section of the delete subquery is reachable without ORDER BY translator.order: the subquery picks '
+                    'rows in storage order, the query picks them in its own order -- the bulk delete removes other rows than the query selects' % scen,
+                    expected='ORDER_BY appended on every path that appends LIMIT')
+        ob.key += '::' + scen
     # ---------------------------------------------------------------- DISTINCT
     g = cg.cfg(sel)
     ds = [x for x in g.nodes if x.kind == 'stmt' and isinstance(x.ast, ast.Assign) and any(dotted(t) == 'distinct' for t in x.ast.targets)]
@@ -215,6 +245,8 @@ def run(ctx):
 
 
 MUTANTS = [
+    dict(id='C24-o1', file='pony/orm/sqltranslation.py', fn='SQLTranslator.construct_delete_sql_ast', old="                if translator.order: subquery_ast.append([ 'ORDER_BY' ] + translator.order)\n                limit = translator.limit if translator.limit is not None else -1 if translator.dialect == 'SQLite' else None\n",
+         new="                limit = translator.limit\n                if limit is None:\n                    if translator.dialect == 'SQLite': limit = -1\n                elif translator.order: subquery_ast.append([ 'ORDER_BY' ] + translator.order)\n", expect='C24-SIBLING.limited'),
     dict(id='C24-s9', file='pony/orm/sqltranslation.py', fn='SQLTranslator.construct_delete_sql_ast', old="                if translator.having_conditions:\n                    subquery_ast.append([ 'HAVING' ] + translator.having_conditions)\n", new="", expect='C24-SIBLING'),
     dict(id='C24-c1', file='pony/orm/sqltranslation.py', fn='SQLTranslator.order_by_numbers', old="        order[:0] = new_order", new="        order.extend(new_order)", expect='C24-CHAIN'),
     dict(id='C24-m1', file='pony/orm/sqltranslation.py', fn='combine_limit_and_offset', old='            limit = max(0, limit - offset2)', new='            limit -= offset2', expect='C24-RANGE'),
